@@ -655,6 +655,27 @@ def with_annotations(prog, assignment):
   return Program(prog.rules, anns, prog.ext, prog.engine_line)
 
 
+def c08_shared_with_pairs(seed):
+  """a grounded predicate and the final predicate both read one WITH-compiled aggregate that is
+  itself built on other WITH-compiled predicates; either may come first in the final rule"""
+  rnd = random.Random(seed ^ 0x5c08)
+  A = gen.A
+  x, y, m, n_ = Var('x'), Var('y'), Var('m'), Var('n')
+  rules = [Rule('Cc', [x], distinct=True, body=rnd.choice([A('E', x, y), Conj([A('E', x, y), A('G', y)])])),
+           Rule('Bb', [x], [('n', Agg(rnd.choice(['Sum', 'Max', 'Count']), y))], distinct=True, body=Conj([A('Cc', x), A('E', x, y)])),
+           Rule('Gg', [x], [('m', Agg(rnd.choice(['Max', 'Min', 'Sum']), Var('n')))], distinct=True, body=Atom('Bb', [x], [('n', None)]))]
+  atoms = [Atom('Gg', [x], [('m', None)]), Atom('Bb', [x], [('n', None)])]
+  if seed % 2:
+    atoms.reverse()
+  rules.append(Rule('T', [x, m, n_], body=Conj(atoms)))
+  plain = Program(rules, [], gen.EXT)
+  ann = rnd.choice([['@Ground(Gg);'], ['@Ground(Gg);', '@With(Bb);'], ['@Ground(Gg);', '@Ground(Cc);'], ['@Ground(Gg);', '@NoInject(Cc);']])
+  annotated = Program(rules, ann, gen.EXT)
+  return [dict(a=Side(plain.text(), 'T', label='default plan'), b=Side(annotated.text(), 'T', label='annotated'),
+               tables=['E', 'G'] if 'G(' in plain.text() else ['E'], K=2, strings_list=[],
+               require_different_sql=True, label='shared_with/%s/%s' % ('G first' if not seed % 2 else 'B first', ','.join(ann)))]
+
+
 def c08_pairs(seed):
   rnd = random.Random(seed ^ 0xc08)
   if seed % 3 == 2:
